@@ -102,11 +102,15 @@ func vPutElem(obj *json.Object, arr *json.Array, e int) {
 		} else {
 			t = obj.SetNewText("k")
 		}
-		t.Edit(0, 0, "abcd")
-		t.Edit(1, 2, "")
-		t.Style(0, 2, map[string]string{"b": "1"})
+		// a character outside the Basic Multilingual Plane (two UTF-16 units)
+		// in a run that is not the last: "a😀cd", indices a=0, emoji=1..2, c=3, d=4
+		t.Edit(0, 0, "a\U0001F600cd")
+		if zzvsym.Bool("textDeletes") {
+			t.Edit(3, 4, "")
+		}
+		t.Style(0, 3, map[string]string{"b": "1"})
 		// values as SDKs store them: JSON-quoted strings, backslashes, empty
-		t.Style(1, 3, map[string]string{"color": "\"red\"", "path": "C:\\a", "e": ""})
+		t.Style(1, 4, map[string]string{"color": "\"red\"", "path": "C:\\a", "e": ""})
 	case 12:
 		n := json.TreeNode{Type: "r", Children: []json.TreeNode{
 			{Type: "p", Attributes: map[string]string{"w": "1", "color": "\"red\"", "path": "C:\\a", "e": ""}, Children: []json.TreeNode{{Type: "text", Value: "a\"b"}}},
